@@ -12,6 +12,7 @@ package keeper
 // provider records are keyed by the raw bytes of the owner's address
 //@ func providerKey
 //@   ensures result == addrBytes(id)
+//@   ensures typeis(id, sdk.AccAddress) ==> result == unbox(id, sdk.AccAddress)
 //@ spec provOf(val: map[str]str, addr: str): types.Provider = decode(types.Provider, val[addr])
 
 //@ func (Keeper).Get
